@@ -170,7 +170,7 @@ def resolve_generic_fn_site(F, site, reach):
         ups = [r for r in roots if r[0] == 'upvar']
         if len(ups) != 1 or len(roots) != 1:
             return None
-        parent = F.body(fn.parent)
+        parent = F.body(fn.parent) or F.dropped(fn.parent)
         if not parent:
             return None
         # the closure literal in the parent: operand number = upvar index
@@ -185,7 +185,8 @@ def resolve_generic_fn_site(F, site, reach):
     idx = args[0][1]
     callers = [c for c in F.calls_to('^' + re.escape(fn.path) + '$') if c.body.path in reach or c.body.root in reach]
     if not callers:
-        return None
+        # a new helper that was inlined into its callers: what they pass for that parameter was recorded then
+        return F.passed_closures(fn.path, idx - 1)
     out = []
     for c in callers:
         if idx - 1 >= len(c.args):
@@ -353,7 +354,7 @@ def param_callbacks(F, b, c):
     f = b
     ap = common.deep_path(b, c.args[0])
     if b.kind == 'Closure':
-        f = F.body(b.root)
+        f = F.body(b.root) or F.dropped(b.root)
         if f is None:
             return None
         ap = common.through_closure(f, b, c.args[0])
@@ -370,12 +371,18 @@ def param_callbacks(F, b, c):
     item = sig.get('trait_item')
     sites = [x for x in F.all_calls() if x.callee and (x.callee.best == f.path or (item and x.callee.defp == item) or x.callee.resolved == f.path)]
     if not sites:
-        return None
+        return F.passed_closures(f.path, k - 1)
     out = []
     for x in sites:
         if k - 1 >= len(x.args):
             return None
-        xa = x.body.access_path(x.args[k - 1])
+        xop = x.args[k - 1]
+        if xop.get('k') == 'const' and (xop.get('fn') or {}).get('local'):
+            # a function of this crate passed by name: analysed like any other crate function
+            r = xop['fn'].get('resolved') or {}
+            out.append(r.get('def') if r.get('kind') == 'item' else xop['fn']['def'])
+            continue
+        xa = x.body.access_path(xop)
         if not xa or len(xa) != 1 or not xa[0].startswith('agg@bb'):
             return None
         m = re.match(r'agg@bb(\d+)\.(\d+)$', xa[0])
